@@ -72,6 +72,12 @@ func routeAndPayload(r hx.T, tag int64) (string, []byte) {
 			return ty + ".g.echo", good
 		case "MUnenc":
 			return ty + ".h.unenc", good
+		case "MEncPanic":
+			return ty + ".h.encpanic", good
+		case "MEchoLater":
+			return ty + ".h.echolater", good
+		case "MUnencLater":
+			return ty + ".h.unenclater", good
 		case "MBadPayload":
 			return ty + ".h.echo", []byte(`{"T":`)
 		}
@@ -205,7 +211,7 @@ func Exec(n *e2e.Node, ops []hx.T) (obs any, nontrivial bool, xtags []string, er
 			}
 		case "HBurst":
 			c := conns[o.Int(0)]
-			if c == nil || c.closed {
+			if c == nil || c.closed || c.cl.NotReady {
 				continue
 			}
 			mid0, tag0, pad, nl, nf := o.Int(1), o.Int(2), o.Int(3), o.Int(4), o.Int(5)
@@ -264,6 +270,35 @@ func Exec(n *e2e.Node, ops []hx.T) (obs any, nontrivial bool, xtags []string, er
 			if e := c.cl.Notify(rt, pl); e != nil {
 				return nil, false, nil, e
 			}
+		case "OHandshake":
+			c := conns[o.Int(0)]
+			if c == nil || c.closed || c.cl.NotReady {
+				continue
+			}
+			if c.cl.NetId == 0 {
+				if e := n.Sentinel(c.cl); e != nil {
+					return nil, false, nil, e
+				}
+			}
+			if e := c.cl.Rehandshake(); e != nil {
+				return nil, false, nil, e
+			}
+		case "OAck":
+			c := conns[o.Int(0)]
+			if c == nil || c.closed {
+				continue
+			}
+			if e := c.cl.Ack(); e != nil {
+				return nil, false, nil, e
+			}
+		case "OHeartbeat":
+			c := conns[o.Int(0)]
+			if c == nil || c.closed {
+				continue
+			}
+			if e := c.cl.Heartbeat(); e != nil {
+				return nil, false, nil, e
+			}
 		case "OAdvance":
 			if e := n.Advance(open()); e != nil {
 				return nil, false, nil, e
@@ -282,6 +317,18 @@ func Exec(n *e2e.Node, ops []hx.T) (obs any, nontrivial bool, xtags []string, er
 			c.closed = true
 		default:
 			return nil, false, nil, fmt.Errorf("c02: unknown op %s", o.Name)
+		}
+	}
+	// a connection still in the handshake state acknowledges now (the final drain needs sentinels;
+	// the ack itself changes nothing the server owes)
+	for _, c := range conns {
+		if !c.closed && c.cl.NotReady {
+			if e := n.Drain(open()); e != nil {
+				return nil, false, nil, e
+			}
+			if e := c.cl.Ack(); e != nil {
+				return nil, false, nil, e
+			}
 		}
 	}
 	// quiescence: everything in flight delivered, every timeout crossed, every byte read
